@@ -170,6 +170,7 @@ type Engine struct {
 	noIfConv     bool
 	fmtSeq       int
 	crashWhere   string
+	roCells      map[*value]bool
 	intrinsics   map[string]intrinsic
 
 	// per path
@@ -697,6 +698,7 @@ func (e *Engine) resetPath() {
 	e.know = newKnowledge()
 	e.specDepth = 0
 	e.fmtSeq = 0
+	e.roCells = map[*value]bool{}
 }
 
 // runPath executes one path following item.prefix; returns how it ended.
